@@ -1,9 +1,10 @@
 Require Extraction.
 Require Import ExtrOcamlBasic.
 From Coq Require Import ZArith NArith List.
-From VB Require Import Stateless.EmbedDefs Stateless.MerkleDefs Stateless.CheckDefs.
+From VB Require Import Stateless.EmbedDefs Stateless.MerkleDefs Stateless.CheckDefs Stateless.PowDefs.
 Extraction "Stateless_model.ml" Nat.pred N.succ Z.succ
   contiguous_search contiguous_search_v0 containsSplit containsSplit_v0 check_embedding verdict_code
   check_merkle_btc check_merkle_vbk btc_merkle_root vbk_merkle_root
   check_btc_blocks check_vbk_block check_vbk_blocks check_vbk_tx check_vbk_pop_tx
-  full_check_atv full_check_vtb check_atv check_vtb check_pop_data memo_step.
+  full_check_atv full_check_vtb check_atv check_vtb check_pop_data memo_step
+  pow_btc pow_vbk vbk_plausibility vbk_max_difficulty.
